@@ -145,21 +145,26 @@ def run_case(case):
     config, history = case["config"], case["history"]
     # the known finding (coarsening versions 1 and 2 started with lmin >= 2) is keyed narrowly; everything else has this flag False
     key = {"versions_1_2_with_lmin_ge_2": bool(config["version"] in (1, 2) and config["lmin"] >= 2)}
-    resume = None
-    if config.get("resume") and len(history) >= 2:
-        # the same history, but the run is stopped in the middle and continued (both documented ways)
-        resume = (len(history) // 2, config["resume"])
-    r = es.build(config, history, _f, 1, resume=resume)
-    sa, op = r.sa, r.op
-    fails = tiling_failures(sa, key)
-    f2, npts = assignment_failures(sa, key)
-    fails += f2
-    # leaves that already existed before the last step with an unchanged scheme were checked in the predecessor state
-    unchanged = set()
-    if r.snaps and r.snaps[-1][2] == tuple(int(x) for x in sa.lmax):
-        unchanged = {(l[0], l[1]) for l in r.snaps[-1][0]} & {(l[0], l[1]) for l in r.snaps[-1][1] if l in r.snaps[-1][0]}
-    f3, n, checked = local_combination_failures(sa, op, key, unchanged=unchanged)
-    fails += f3
+    # interrupted runs: the same history, stopped after k steps and continued (both documented ways); k = middle and k = all steps
+    # (the continuation then only re-evaluates).  A continuation through refinement_container re-evaluates EVERY area, so no leaf
+    # may be skipped as "unchanged since the predecessor state" there.
+    resumes = [None]
+    if config.get("resume") and len(history) >= 1:
+        resumes = [(k, config["resume"]) for k in sorted({len(history) // 2, len(history)})]
+    fails = []
+    for resume in resumes:
+        r = es.build(config, history, _f, 1, resume=resume)
+        sa, op = r.sa, r.op
+        kk = key if resume is None else dict(key, resumed=config["resume"])
+        fails += tiling_failures(sa, kk)
+        f2, npts = assignment_failures(sa, kk)
+        fails += f2
+        # leaves that already existed before the last step with an unchanged scheme were checked in the predecessor state
+        unchanged = set()
+        if (resume is None or resume[1] == "continue") and r.snaps and r.snaps[-1][2] == tuple(int(x) for x in sa.lmax):
+            unchanged = {(l[0], l[1]) for l in r.snaps[-1][0]} & {(l[0], l[1]) for l in r.snaps[-1][1] if l in r.snaps[-1][0]}
+        f3, n, checked = local_combination_failures(sa, op, kk, unchanged=unchanged)
+        fails += f3
     res = {"failures": fails, "canon": es.canon(sa), "nontrivial": len(history) > 0,
            "outcome": (len(sa.refinement.get_objects()), n, tuple(sa.lmax))}
     if case.get("want_events", False):
